@@ -3,11 +3,13 @@
 package scen
 
 import (
+	"bytes"
 	"context"
 	"errors"
 	"fmt"
 	"io"
 	"strings"
+	"time"
 
 	"github.com/ovh/kmip-go"
 	"github.com/ovh/kmip-go/kmipserver"
@@ -37,6 +39,29 @@ func undecodableRequest(kind string) []byte {
 	bad := ttlv.Value{Tag: kmip.TagBatchItem, Value: ttlv.Struct{{Tag: kmip.TagOperation, Value: "x"}}}
 	badPayload := ttlv.Value{Tag: kmip.TagBatchItem, Value: ttlv.Struct{{Tag: kmip.TagOperation, Value: ttlv.Enum(kmip.OperationActivate)},
 		{Tag: kmip.TagRequestPayload, Value: ttlv.Struct{{Tag: kmip.TagUniqueIdentifier, Value: int32(7)}}}}}
+	if strings.HasPrefix(kind, "short-") {
+		// a fully framed request in which one fixed-width item announces fewer bytes than its type has (the item still fills its
+		// 8-byte block): Batch Count with length 2, Protocol Version Major with length 1, Operation with length 3, Time Stamp with length 4
+		h := ttlv.Struct{{Tag: kmip.TagProtocolVersion, Value: ttlv.Struct{{Tag: kmip.TagProtocolVersionMajor, Value: int32(1)}, {Tag: kmip.TagProtocolVersionMinor, Value: int32(4)}}},
+			{Tag: kmip.TagTimeStamp, Value: time.Unix(1700000000, 0)}, {Tag: kmip.TagBatchCount, Value: int32(1)}}
+		raw := ttlv.MarshalTTLV(ttlv.Value{Tag: kmip.TagRequestMessage, Value: ttlv.Struct{{Tag: kmip.TagRequestHeader, Value: h}, good}})
+		patch := map[string]struct {
+			item []byte
+			l    byte
+		}{
+			"short-count":     {[]byte{0x42, 0x00, 0x0D, 0x02, 0, 0, 0, 4}, 2},
+			"short-major":     {[]byte{0x42, 0x00, 0x6A, 0x02, 0, 0, 0, 4}, 1},
+			"short-operation": {[]byte{0x42, 0x00, 0x5C, 0x05, 0, 0, 0, 4}, 3},
+			"short-timestamp": {[]byte{0x42, 0x00, 0x92, 0x09, 0, 0, 0, 8}, 4},
+		}[kind]
+		i := bytes.Index(raw, patch.item)
+		if patch.item == nil || i < 0 {
+			panic("undecodableRequest: cannot build " + kind)
+		}
+		raw = append([]byte{}, raw...)
+		raw[i+7] = patch.l
+		return raw
+	}
 	var m ttlv.Struct
 	switch kind {
 	case "item":
@@ -435,7 +460,7 @@ func init() {
 	srv("srv-4bytes-then-close", "4 bytes then close", SrvCfg{Conns: [][]Op{{{K: "4", IDs: []string{"ok1"}}, OpClose}}})
 	srv("srv-garbage", "invalid type byte: framed garbage gets one invalid-message response, then the stream ends", SrvCfg{Conns: [][]Op{{OpGarbage, OpInvalid, OpEOF}}})
 	srv("srv-undecodable", "well-framed but undecodable message gets one invalid-message response, then the stream ends", SrvCfg{Conns: [][]Op{{OpUndecod, OpInvalid, OpEOF}}})
-	for _, k := range []string{"item", "item2", "payload", "nocount"} {
+	for _, k := range []string{"item", "item2", "payload", "nocount", "short-count", "short-major", "short-operation", "short-timestamp"} {
 		srv("srv-undecodable-"+k, "a good header followed by something undecodable ("+k+"): one invalid-message response, then the stream ends", SrvCfg{Conns: [][]Op{{{K: "D", IDs: []string{k}}, OpInvalid, OpEOF}}})
 	}
 	srv("srv-refused-requests-c", "requests whose header announces items the message does not carry (one / two announced, none present; one announced, two present), each answered once, then a good request", SrvCfg{Conns: [][]Op{{odd("count-one-no-items"), odd("count-two-no-items"), odd("count-one-two-items"), W("ok1"), R("ok1"), OpClose}}})
